@@ -157,6 +157,13 @@ def flow_scenarios(ctx):
         scs.append({"name": "rollover-%s-%s" % (a, b),
                     "steps": [{"key_type": a}, {"key_type": b, "contacts": ["b@example.org", "a@example.org"] if a < b else None}],
                     "nonce_on_get": True, "rules": []})
+    # successive roll-overs: the key the CA holds is then NOT the only (nor the last, nor the first) superseded key
+    chains = [("ecdsa_p256", "ecdsa_p384", "ecdsa_p521", "ed25519"), ("rsa2048", "ecdsa_p256", "rsa2048")] if ctx.quick() else \
+        [("ecdsa_p256", "ecdsa_p384", "ecdsa_p521", "ed25519"), ("rsa2048", "ecdsa_p256", "rsa2048"),
+         ("ed448", "ed25519", "ecdsa_p384", "ecdsa_p256", "rsa2048"), ("ecdsa_p521", "ecdsa_p256", "ecdsa_p521", "ecdsa_p256")]
+    for ch in chains:
+        scs.append({"name": "rollover-chain-" + "-".join(ch), "steps": [{"key_type": k} for k in ch],
+                    "nonce_on_get": True, "rules": []})
     scs.append({"name": "contacts", "steps": [{"key_type": "ecdsa_p256"}, {"key_type": "ecdsa_p256", "contacts": ["c@example.org"]}],
                 "nonce_on_get": False, "rules": []})
     # a request that is delivered (its nonce is consumed) but never answered, then the next attempt:
